@@ -34,7 +34,6 @@ Proof.
 Qed.
 
 (* ------------------------------------------------------------------ length-prefixed NAL units *)
-Definition nalu_ok (n : str) : bool := lenN n <? 65536.
 
 Lemma rd_nalus_wr l : forall rest,
   forallb nalu_ok l = true -> rd_nalus (length l) (flat_map wr_nalu l ++ rest) = Some (l, rest).
@@ -60,10 +59,6 @@ Proof.
 Qed.
 
 (* ------------------------------------------------------------------ avc.DecConfRec *)
-Definition avcrec_ok (r : avcrec) : bool :=
-  (lenN (ar_sps r) <? 32) && (lenN (ar_pps r) <? 256)
-  && forallb nalu_ok (ar_sps r) && forallb nalu_ok (ar_pps r)
-  && (ar_chroma r <? 4) && (ar_bdl r <? 8) && (ar_bdc r <? 8) && (ar_nspsext r =? 0).
 
 (* Size() is the number of bytes EncodeSW writes: for EVERY record *)
 Lemma avcrec_size_ok r : lenN (avcrec_encode r) = avcrec_size r.
@@ -106,7 +101,6 @@ Proof.
 Qed.
 
 (* ------------------------------------------------------------------ hevc.DecConfRec *)
-Definition array_ok (a : N * list str) : bool := (lenN (snd a) <? 65536) && forallb nalu_ok (snd a).
 
 Lemma rd_arrays_wr l : forall rest,
   forallb array_ok l = true -> rd_arrays (length l) (flat_map wr_array l ++ rest) = Some (l, rest).
@@ -132,12 +126,6 @@ Proof.
   unfold hvcrec_encode, hvcrec_size. rewrite !lenN_app, wr_arrays_len. unfold lenN. cbn [be16 be32 be48 length app]. lia.
 Qed.
 
-Definition hvcrec_ok (r : hvcrec) : bool :=
-  (hr_version r =? 1) && (hr_space r <? 4) && (hr_pidc r <? 32)
-  && (hr_compat r <? 4294967296) && (hr_constraint r <? 281474976710656)
-  && (hr_minspat r <? 4096) && (hr_par r <? 4) && (hr_chroma r <? 4) && (hr_bdl r <? 8) && (hr_bdc r <? 8)
-  && (hr_avgfr r <? 65536) && (hr_cfr r <? 4) && (hr_ntl r <? 8) && (hr_tin r <? 2) && (hr_lsm1 r =? 3)
-  && (lenN (hr_arrays r) <? 256) && forallb array_ok (hr_arrays r).
 
 (* byte 1: general_profile_space (2) | general_tier_flag (1) | general_profile_idc (5) *)
 Definition b1_of (space : N) (tier : bool) (pidc : N) : N :=
